@@ -285,6 +285,71 @@ func rawMutants(si *stepInfo, req *rt.Wire, rng *vh.RNG, limit int) []rawMut {
 				put([]any{1}, "raw:wrong-type:array-for-object")
 			}
 		}
+		// an UNDECLARED property added to the body object, to a nested user type, to an array element,
+		// to a map value: the design does not forbid it and the document does not say additionalProperties: false
+		{
+			addExtra := func(jp []any, ps string) {
+				var nd any
+				ok := true
+				extra := func(c any) any {
+					cm, isObj := c.(map[string]any)
+					if !isObj {
+						ok = false
+						return c
+					}
+					o := map[string]any{}
+					for kk, vv := range cm {
+						o[kk] = vv
+					}
+					o["zz_undeclared"] = json.Number("7")
+					return o
+				}
+				if len(jp) == 0 {
+					nd = extra(doc)
+				} else {
+					var found bool
+					nd, found = jsonEdit(doc, jp, func(c any, k any) any {
+						switch cc := c.(type) {
+						case map[string]any:
+							o := map[string]any{}
+							for kk, vv := range cc {
+								o[kk] = vv
+							}
+							o[k.(string)] = extra(cc[k.(string)])
+							return o
+						case []any:
+							o := append([]any{}, cc...)
+							if k.(int) < len(o) {
+								o[k.(int)] = extra(o[k.(int)])
+							}
+							return o
+						}
+						ok = false
+						return c
+					})
+					ok = ok && found
+				}
+				if ok {
+					mk(setBody(nd), "raw:extra-property", ps, si.Payload, false)
+				}
+			}
+			if _, isObj := doc.(map[string]any); isObj && (m.Payload.T.Kind == "object" || m.Payload.T.Kind == "user") {
+				addExtra(nil, "")
+			}
+			n := 0
+			for _, s := range ss {
+				if s.loc != "body" || s.val == nil || s.val.K != "object" || len(s.path) == 0 || n >= 6 {
+					continue
+				}
+				if bt, _ := d.Effective(s.attr); bt.Kind != "object" {
+					continue
+				}
+				if jp, okp := jsonPath(si.Payload, s.path); okp {
+					addExtra(jp, pathString(s.path))
+					n++
+				}
+			}
+		}
 		// whole-body edits
 		nv := si.Payload
 		if m.Payload.T.Kind == "object" || m.Payload.T.Kind == "user" {
@@ -477,7 +542,7 @@ func rawMutants(si *stepInfo, req *rt.Wire, rng *vh.RNG, limit int) []rawMut {
 		// every omission is kept; the other wire mutants are sampled
 		var keep, rest []rawMut
 		for _, o := range out {
-			if strings.HasPrefix(o.info.Desc, "raw:delete-") {
+			if strings.HasPrefix(o.info.Desc, "raw:delete-") || o.info.Desc == "raw:extra-property" {
 				keep = append(keep, o)
 			} else {
 				rest = append(rest, o)
